@@ -129,17 +129,19 @@ structure State (M E : Type) where
   gOutSent : List M      -- messages handed to outgoing.Send, in call order
   gOutRecv : List M      -- messages returned by outgoing.Recv
   gIncSent : List M      -- messages handed to Incoming.Send
-  gDropped : List M      -- second response of a misbehaving target on a unary-response method
+  gDropped : List M      -- responses of a unary-response method that are not forwarded: the second message of a
+                         -- misbehaving target, or the message that is superseded by a non-OK status
+  gLost : List M         -- the unary request that is abandoned because Outgoing.Stream failed
   gCloseSend : Bool      -- outgoing.CloseSend() was called
   gHalf : Bool           -- the i2o pump saw EOF (client half-close / target stopped reading)
-  gFinal : Option (Option E)  -- terminal result of outgoing.Recv: some none = EOF, some (some e) = status e
+  gFinals : List (Option E)   -- terminal results of outgoing.Recv, in order: none = EOF, some e = status e
   gFault : Bool          -- an event outside "fault-free" happened (see `faultLabel`)
   deriving DecidableEq, Repr
 
 def init (M E : Type) : State M E :=
   { main := .start, i2o := .absent, o2i := .absent, i2oCh := none, o2iCh := none, ctx := none, out := .none,
-    gIncRecv := [], gOutSent := [], gOutRecv := [], gIncSent := [], gDropped := [],
-    gCloseSend := false, gHalf := false, gFinal := none, gFault := false }
+    gIncRecv := [], gOutSent := [], gOutRecv := [], gIncSent := [], gDropped := [], gLost := [],
+    gCloseSend := false, gHalf := false, gFinals := [], gFault := false }
 
 variable {M E : Type}
 
@@ -209,7 +211,7 @@ def stepCore [DecidableEq M] [DecidableEq E] (p : Params) (s : State M E) : Labe
     match s.main with
     | .streamPending um =>
       match r with
-      | .err e => some (beginReturn s false (some (.peer e)))
+      | .err e => some (beginReturn { s with gLost := um.toList } false (some (.peer e)))
       | .ok =>
         match um with
         | none => -- client-streaming: spawn both pumps, enter the loop
@@ -256,19 +258,20 @@ def stepCore [DecidableEq M] [DecidableEq E] (p : Params) (s : State M E) : Labe
       if p.ss then
         match r with
         | .msg m => some (afterRecv { s with gOutRecv := s.gOutRecv ++ [m] } first false (.send m false))
-        | .eof => some (afterRecv { s with gFinal := some none } first true (.finish none))
-        | .err e => some (afterRecv { s with gFinal := some (some e) } first true (.finish (some (.peer e))))
+        | .eof => some (afterRecv { s with gFinals := s.gFinals ++ [none] } first true (.finish none))
+        | .err e => some (afterRecv { s with gFinals := s.gFinals ++ [some e] } first true (.finish (some (.peer e))))
       else
         match r with
         | .msg m => some { s with o2i := .recv2Call m, gOutRecv := s.gOutRecv ++ [m] }
-        | .eof => some { s with o2i := .header true (.finish (some .serverEOF)), gFinal := some none }
-        | .err e => some { s with o2i := .header true (.finish (some (.peer e))), gFinal := some (some e) }
+        | .eof => some { s with o2i := .header true (.finish (some .serverEOF)), gFinals := s.gFinals ++ [none] }
+        | .err e => some { s with o2i := .header true (.finish (some (.peer e))), gFinals := s.gFinals ++ [some e] }
     | .recv2Pending m =>
       match r with
       | .msg m2 => some { s with o2i := .header false (.send m true), gOutRecv := s.gOutRecv ++ [m2],
                                  gDropped := s.gDropped ++ [m2] }
-      | .eof => some { s with o2i := .header true (.send m true), gFinal := some none }
-      | .err e => some { s with o2i := .header true (.finish (some (.peer e))), gFinal := some (some e) }
+      | .eof => some { s with o2i := .header true (.send m true), gFinals := s.gFinals ++ [none] }
+      | .err e => some { s with o2i := .header true (.finish (some (.peer e))), gFinals := s.gFinals ++ [some e],
+                                gDropped := s.gDropped ++ [m] }
     | _ => none
   | .outHeader =>
     match s.o2i with
